@@ -95,4 +95,8 @@ func c16ConcurrentUnits(tier string) []Unit {
 	return us
 }
 
-func init() { scenarioSets["C16"] = c16ConcurrentScenarios }
+func init() {
+	scenarioSets["C16"] = func(tier string) []*Scenario {
+		return append(c16ConcurrentScenarios(tier), programScenarios("C16", pxPrograms(tier, "layers,events"), 1)...)
+	}
+}
